@@ -148,6 +148,9 @@ func namedKey(T types.Type) string {
 }
 
 func (E *Engine) shape(T types.Type) Shape {
+	if T == nil {
+		panic(engineErr("value without a type (aggregate built by a contract expression)"))
+	}
 	T = types.Unalias(T)
 	if k := namedKey(T); k != "" {
 		if at, ok := E.CS.Abstract[k]; ok {
